@@ -448,6 +448,23 @@ def clause6_flush(ctx, P, cg):
            "%s returns 'go on' with bytes still queued on a path that does not move them to the start of the write buffer after the "
            "last accounting step: the next flush starts at the buffer start again, re-sends bytes that are already out and drops "
            "the tail" % sb.srcname, witness=bad.witness() if bad else None)
+    # the same on the error return: a hard write error after progress (ENOBUFS, ENOMEM raise no epoll error event) is only logged by
+    # the callers that send on behalf of another peer - the connection stays, so the queue must be consistent there too
+    bade = None
+    ne = 0
+    for v in Q.path_views(ctx, P, sb, loop_iters=2):
+        rc = v.ret_const()
+        if rc is None or rc >= 0:
+            continue
+        ne += 1
+        wrote = [k for k, i in v.insts() if i.op == "store" and _fld(P.term(sb, i.a[1]), "to_write")]
+        moved = [k for k, i in v.calls() if i.callee and P.srcname_of(i.callee).startswith("llvm.memmove")]
+        if wrote and not (moved and moved[-1] > wrote[-1]):
+            bade = v
+    ctx.ob("C10.5 R-CURSOR", sb, "leftover-is-moved-to-the-front:error-return", bade is None and ne >= 1,
+           "%s returns its error value after it has taken sent bytes off to_write, without moving the unsent rest to the start of the "
+           "write buffer: callers that send on behalf of another peer only log the failure, the connection stays, and the next flush "
+           "re-sends bytes that are already out and drops the tail" % sb.srcname, witness=bade.witness() if bade else None)
     sites = P.callers_of(sb)
     if len(sites) < 2:
         raise AnalysisBroken("%s: %d call sites" % (sb.srcname, len(sites)))
@@ -516,9 +533,43 @@ def clause8_skip_is_what_went_out(ctx, P):
            witness=bad[0].view.witness() if bad else None)
 
 
+def clause9_byte_order(ctx, P):
+    """the length prefix of a raw frame and the extended lengths of websocket frames go through the six byte-order helpers of
+    jet_endian.c: each is evaluated as a table (finite evaluation of its IR, helpers it calls included) on values that have a
+    different byte in every position and on the values around the length boundaries, and must reverse the bytes of its operand
+    (the analysed targets are little-endian) - a prefix that announces another length than the message has tears every later frame"""
+    from ..core.feval import FEval
+    little = P.target_little_endian() if hasattr(P, "target_little_endian") else True
+    n = 0
+    bad = []
+    for bits in (16, 32, 64):
+        nb = bits // 8
+        samples = [int.from_bytes(bytes(range(0x11, 0x11 + nb)), "big"), 0, (1 << bits) - 1, 1, 1 << (bits - 1)] + \
+            [v & ((1 << bits) - 1) for v in (0xFF, 0x100, 0xFFFF, 0x10000, 65536 + 4464, 0xFFFFFF, 0x1000000, 0x7FFFFFFF, 0x80000000)] + \
+            [0xFF << (8 * k) for k in range(nb)]
+        for name in ("jet_be%dtoh" % bits, "jet_htobe%d" % bits):
+            f = P.fn("jet_endian.c:" + name)
+            ev = FEval(P, f, None, ptr_param=None)
+            for x in samples:
+                try:
+                    r, _ = ev.run({}, {0: x})
+                except AnalysisBroken as e:
+                    ctx.broken("%s cannot be evaluated as a table: %s" % (name, e))
+                    return
+                n += 1
+                want = int.from_bytes(x.to_bytes(nb, "little"), "big") if little else x
+                if r != want:
+                    bad.append("%s(%#x) = %#x" % (name, x, r))
+    ctx.ob("C10.4 R-TABLE", P.fn("jet_endian.c:jet_htobe32"), "byte-order-helpers-reverse-the-bytes", not bad and n >= 60,
+           "a byte-order helper does not give the big-endian form of its operand: %s - the length prefix (or extended frame length) "
+           "announces another length than the message has, the receiver cuts the stream at the wrong places" % "; ".join(bad[:4]),
+           detail={"evaluations": n})
+
+
 def run(ctx):
     for cfg in ctx.configs():
         P, cg = cfg.P, cfg.cg
+        clause9_byte_order(ctx, P)
         clause6_flush(ctx, P, cg)
         clause1_nonblocking(ctx, P, cg)
         clause2_atomic(ctx, P, cg)
